@@ -40,12 +40,21 @@ static bool is_mutator(int op) {
 // End-of-run hook used by the forked copy of F6 (process exit): lists both registries and calls one evaluator on
 // whatever is selected.  Legal for a host program: its atexit handler was registered before the library was used.
 static bool g_probe_has_cur[2] = {false, false};
+static bool g_probe_undocumented[2] = {false, false};  // the selected solution does not provide posterior_mean
 static void exit_probe() {
   MASA::masa_list_mms<double>();
   MASA::masa_list_mms<long double>();
-  if (g_probe_has_cur[0]) (void)MASA::masa_eval_posterior_mean<double>();
-  if (g_probe_has_cur[1]) (void)MASA::masa_eval_posterior_mean<long double>();
+  bool ok = true;
+  if (g_probe_has_cur[0]) {
+    double r = MASA::masa_eval_posterior_mean<double>();
+    if (g_probe_undocumented[0] && bits_of(r) != bits_of(-1.33)) ok = false;
+  }
+  if (g_probe_has_cur[1]) {
+    long double r = MASA::masa_eval_posterior_mean<long double>();
+    if (g_probe_undocumented[1] && bits_of(r) != bits_of((long double)(-1.33))) ok = false;
+  }
   std::cout.flush();
+  if (!ok) _exit(43);  // an evaluator the solution does not provide answered something else than -1.33
 }
 
 // instance under evaluation while a callback is pre-empted (never touched by nested steps)
@@ -1250,6 +1259,8 @@ void Exec::do_step(const Step& st, const Client& cl, int depth) {
         child_prologue(false);
         g_probe_has_cur[0] = reg[0].has_cur;
         g_probe_has_cur[1] = reg[1].has_cur;
+        for (int pr = 0; pr < 2; ++pr)
+          if (reg[pr].has_cur) g_probe_undocumented[pr] = g_sols[reg[pr].m[reg[pr].cur].sol].name != "cp_normal";
         g_exit_probe = &exit_probe;
         g_expect_exit = (st.u & 1) ? 2 : 1;  // half of the copies use the library once more from their exit hook
         exit(0);
@@ -1260,8 +1271,18 @@ void Exec::do_step(const Step& st, const Client& cl, int depth) {
       step_out += capture_drain();
       fire("F6_process_exit");
       orc_eval("C19");
-      if (!(WIFEXITED(status) && WEXITSTATUS(status) == 0))
+      if (!(WIFEXITED(status) && WEXITSTATUS(status) == 0)) {
         viol("C19", "C19.teardown.exit", "exit", "a copy of the session that calls exit(0) here does not terminate cleanly (wait status " + std::to_string(status) + ")");
+        const bool probed = (st.u & 1) != 0;
+        bool undocumented = false;
+        for (int pr = 0; pr < 2; ++pr)
+          if (reg[pr].has_cur && g_sols[reg[pr].m[reg[pr].cur].sol].name != "cp_normal") undocumented = true;
+        if (probed && undocumented) {
+          // the copy's end-of-run hook called an evaluator its solution does not provide: it must get -1.33, not a crash
+          orc_eval("C15");
+          viol("C15", "C15.exit_hook", "posterior_mean", "an evaluator the selected solution does not provide, called from the program's end-of-run hook, does not return -1.33 (wait status " + std::to_string(status) + ")");
+        }
+      }
       return;
     }
     default: ++skipped; return;
